@@ -44,9 +44,18 @@ pub fn def_c02() -> PropDef {
             // (4) real threads: interleavings finer than the scheduler's yield points (e.g. two lock acquisitions
             // inside one hooked function, seeded change C02-S2) are only reachable this way
             par::stress(ctx, "C02");
+            // (5) the other model families (knapsack, set packing with dynamic order, common subsequence with long
+            // arcs), small and large, sequential and with 1-3 real threads: each has its own replay function
+            if ctx.stats.violations.is_empty() {
+                let cases = ctx.tier.pick(2_000, 30_000);
+                let strat = crate::families::fam_case_strategy(vec![0, 1, 2, 10, 11, 12], vec![DdKind::Lel, DdKind::Frontier, DdKind::Pooled], true);
+                ctx.pt_run("families", cases, strat, |c| serde_json::to_value(c).unwrap(), |c, obs| crate::props::fam::eval_family(c, obs, "C02"));
+            }
         },
         replay: |part, case, known| {
-            if part.starts_with("stress") {
+            if part == "families" {
+                crate::props::fam::replay_family(case, "C02")
+            } else if part.starts_with("stress") {
                 par::stress_replay(case, "C02")
             } else if part.starts_with("par") {
                 par::replay(part, case, known, "C02")
